@@ -90,7 +90,7 @@ def c12_2(cx):
     cx.only_if(sa, si, Cmp(r"AtomicRevision::load\(\$1\.verified_at\)$", "==", r"current_revision\(\$2\)$"), "iteration state is carried over only within the current revision")
 
 
-@ob("C12.3", ["C12", "C18", "C20", "C13"], "reusing a provisional memo whose cycle heads are not final (or were finalised in another iteration/revision) returns an intermediate value as the result", kind="ONLYIF")
+@ob("C12.3", ["C12", "C18", "C20", "C13", "C22"], "reusing a provisional memo whose cycle heads are not final (or were finalised in another iteration/revision) returns an intermediate value as the result", kind="ONLYIF")
 def c12_3(cx):
     """validate_provisional returns true only if every cycle head is Final with verified_at == the memo's verified_at and iteration == the recorded iteration (and then marks verified_final); validate_same_iteration returns true only if memo verified_at == current revision and every head is claimed as Cycle with the same verified_at and iteration (single own head: the head is on this thread's stack)."""
     v = cx.fn(r"^function::maybe_changed_after::validate_provisional$")
